@@ -77,6 +77,8 @@ def run(ctx):
                     continue
                 one(ctx, core, shape, method, n, order, full_output)
                 n_runs += 1
+    for method in ('central', 'complex'):
+        one(ctx, core, (2,), method, 1, 2, False, tuple_arg=True)
     rep.notes['runs'] = n_runs
     argmin_table(ctx)
     rep.notes['control_exception_table'] = {'%s: %s' % k: v for k, v in CONTROL_EXCEPTIONS.items()}
@@ -138,7 +140,7 @@ def argmin_table(ctx):
               'NaN stays NaN in columns that have valid estimates', 'one all-NaN column, one mixed column', key='argmin table')
 
 
-def one(ctx, core, shape, method, n, order, full_output, rule_as=None):
+def one(ctx, core, shape, method, n, order, full_output, rule_as=None, tuple_arg=False):
     rep = ctx.rep
     rid = (lambda r: rule_as) if rule_as else (lambda r: r)       # another property's check may file the results under its own rule
     transposed = isinstance(shape, str)
@@ -147,6 +149,10 @@ def one(ctx, core, shape, method, n, order, full_output, rule_as=None):
         shape = base_shape[::-1]
     label = 'Derivative/%s/n=%d/order=%d/x.shape=%s%s/full_output=%s' % (method, n, order, shape, ' (transposed view)' if isinstance(shape, str) else '', full_output)
     marker = DV({('arg', 0)}, 'f')
+    if tuple_arg:
+        # one extra argument that is itself a tuple (a pair of coefficients, say): it is an argument, not an argument list
+        marker = (DV({('arg', 0)}, 'f'), DV({('arg', 1)}, 'f'))
+        label += '/the extra argument is a tuple'
     kwmarker = DV({('kw', 'a')}, 'f')
     holder = {}
 
@@ -202,7 +208,7 @@ def one(ctx, core, shape, method, n, order, full_output, rule_as=None):
         # quite possibly the reason why the rest could not be interpreted
         def proper(c):
             a, k = c['args'], c['kwds']
-            return (len(a) == 1 and isinstance(a[0], DV) and all(str(t[0]).startswith('arg') for t in tags_of(a[0])) and
+            return (len(a) == 1 and isinstance(a[0], (DV, tuple) if tuple_arg else DV) and all(str(t[0]).startswith('arg') for t in tags_of(a[0])) and
                     list(k) == ['a'] and isinstance(k['a'], DV) and all(str(t[0]).startswith('kw') for t in tags_of(k['a'])))
         wrong = [i for i, c in enumerate(holder.get('calls') or []) if not proper(c)]
         if not wrong:
